@@ -268,7 +268,12 @@ CGEN_FUNCTIONS = ["constmap.c:hash:C_cm_hash", "cdb_hash.c:cdb_hash", "cdb_unpac
                   "byte_copy.c:byte_copy:K_byte_copy:chk", "cdb_unpack.c:cdb_unpack:K_cdb_unpack:chk", "constmap.c:hash:K_cm_hash:chk",
                   "quote.c:quote_need", "quote.c:quote_need:K_quote_need:chk", "hfield.c:hmatch:K_hmatch:chk", "token822.c:atomcheck:K_atomcheck:chk",
                   "control.c:striptrailingwhitespace:K_striptrailingwhitespace:chk", "case_lowerb.c:case_lowerb:K_case_lowerb:chk",
-                  "byte_rchr.c:byte_rchr:K_byte_rchr:chk", "str_rchr.c:str_rchr:K_str_rchr:chk"]
+                  "byte_rchr.c:byte_rchr:K_byte_rchr:chk", "str_rchr.c:str_rchr:K_str_rchr:chk",
+                  # with I/O stubs (the descriptor's input/output are file-scope lists; functions that report and exit end the run with a
+                  # negative code; eofdie = the program's read function exits at end of input): the two SMTP DATA codecs, the SMTP reply
+                  # parser, the netstring length parser
+                  "qmail-remote.c:blast:C_rblast", "qmail-smtpd.c:put:C_sput", "qmail-smtpd.c:blast:C_sblast:eofdie",
+                  "qmail-remote.c:get:C_rget:eofdie", "qmail-remote.c:smtpcode:C_smtpcode:eofdie", "qmail-qmtpd.c:getlen:C_getlen:eofdie"]
 
 def gen_params(srcdir):
     r = run([sys.executable, os.path.join(VERIF, "tools", "extract_params.py"), srcdir])
